@@ -381,6 +381,12 @@ func vConnFeedErr(nc net.Conn, msg string) {
 	c := vFC(nc)
 	c.feed = append(c.feed, vFeedItem{kind: "error", err: errors.New(msg)})
 }
+// vConnFeedRaw: raw bytes that are NOT a complete BER element (a stream that
+// ends inside a frame); natively just bytes, the reader hits EOF after them.
+func vConnFeedRaw(nc net.Conn, b string) {
+	c := vFC(nc)
+	c.feed = append(c.feed, vFeedItem{kind: "packet", data: []byte(b)})
+}
 func vConnFeedEOF(nc net.Conn)   { c := vFC(nc); c.feed = append(c.feed, vFeedItem{kind: "eof"}) }
 func vConnFeedBlock(nc net.Conn) { c := vFC(nc); c.feed = append(c.feed, vFeedItem{kind: "block"}) }
 func vConnFeedCall(nc net.Conn, f func()) {
